@@ -88,6 +88,8 @@ struct Fired {
     bad_tag: bool,
     /// The new length claims more bytes than the stream will ever deliver.
     short: bool,
+    /// The corrupted length is smaller than the true one: every byte the frame declares is in the stream.
+    shrunk: bool,
     /// A truncation exactly at a frame boundary: simply a shorter valid stream.
     clean_cut: bool,
     /// A length >= 2^31 was injected.
@@ -135,6 +137,7 @@ fn apply_corruption(prep: &Prepared, corr: &Corr) -> (Vec<u8>, Option<Fired>) {
                 desc: format!("frame {frame}: tag byte at {} {:#04x} -> {:#04x} (tag {tag}, defined={})", f.off, old, new, !bad_tag),
                 bad_tag,
                 short: false,
+                shrunk: false,
                 clean_cut: false,
                 big_len: false,
             };
@@ -163,6 +166,9 @@ fn apply_corruption(prep: &Prepared, corr: &Corr) -> (Vec<u8>, Option<Fired>) {
                 desc: format!("frame {frame}: {bits} bit length at {} {cur} -> {new} ({} bytes follow)", f.off, after),
                 bad_tag: false,
                 short: new > after,
+                // (Only where shrinking cannot move another length field: the last length of the frame, or a frame whose
+                // lengths all sit at fixed positions.)
+                shrunk: new < cur && (lens.iter().all(|o| o.off <= f.off) || prep.fixed_positions),
                 clean_cut: false,
                 big_len: new >= 1 << 31,
             };
@@ -179,6 +185,7 @@ fn apply_corruption(prep: &Prepared, corr: &Corr) -> (Vec<u8>, Option<Fired>) {
                 desc: format!("stream of {total} bytes truncated at {at} ({frame} complete frames, clean_cut={clean_cut})"),
                 bad_tag: false,
                 short: false,
+                shrunk: false,
                 clean_cut,
                 big_len: false,
             };
@@ -215,6 +222,7 @@ fn apply_corruption(prep: &Prepared, corr: &Corr) -> (Vec<u8>, Option<Fired>) {
                 desc,
                 bad_tag: false,
                 short: false,
+                shrunk: false,
                 clean_cut: false,
                 big_len: false,
             };
@@ -524,6 +532,18 @@ fn check_corrupted_stream(sig: &str, prep: &Prepared, f: &Fired, out: &DriveOut,
             // Not demanded by the property text beyond "error rather than a panic, a hang or a
             // silently wrong message": a clean end of stream is counted, not flagged.
             None => res.count("probe.short_length_clean_end", 1),
+        },
+        // A length that was made smaller: the stream holds every byte the frame declares (and more), so the decoder has
+        // all it will ever be told it needs for frame k. It must come to a verdict - a message (the lengths may describe
+        // another consistent framing) or an error of its own. Yielding nothing until the end of the stream (where only the
+        // framework's "bytes remaining on stream" speaks) is the hang the statement rules out: on a live channel the
+        // decoder would sit on the bytes for ever and every later frame would be lost.
+        "length_boundary" if f.shrunk => match at_k {
+            None => res.violate("C10.hang", format!("{sig}:short_length"), format!("{}: all declared bytes of frame {k} were available but the decoder never produced a message or an error (clean end)", f.desc)),
+            Some(Ev::Err(e, _)) if e.contains("bytes remaining on stream") && out.first_event_at_eof.map(|i| i <= k).unwrap_or(false) => {
+                res.violate("C10.hang", format!("{sig}:short_length"), format!("{}: all declared bytes of frame {k} were available but the decoder produced nothing until the stream ended ({})", f.desc, first_line(e)))
+            }
+            _ => res.count("probe.shrunk_length_verdict", 1),
         },
         "truncate" => match at_k {
             Some(Ev::Item(c, _)) => res.violate(
